@@ -72,10 +72,12 @@ mod __verif_c07 {
             // nothing but the oldest archive may disappear: every other chunk is still in the window
             let mut s0 = 0usize;
             while s0 < 12 {
-                if (s0 == 10 || (s0 >= b && s0 + 1 < b + c)) && old[s0].is_some() {
+                // (the oldest archive, slot base+count-1, is evicted only by the chunk shifted onto it: if the slot below it is empty it stays)
+                let evictable = s0 + 1 == b + c && (c == 1 || old[s0 - 1].is_some());
+                if (s0 == 10 || (s0 >= b && s0 < b + c && !evictable)) && old[s0].is_some() {
                     let mut found = false; let mut t = b;
                     while t < b + c { if new[t] == old[s0] { found = true; } t += 1; }
-                    __verif_ob!("rotate#post every chunk except the oldest archive is retained", found);
+                    __verif_ob!("rotate#post every chunk is retained, except an oldest archive that a shifted chunk replaces", found);
                 }
                 s0 += 1;
             }
